@@ -2596,4 +2596,201 @@ theorem obsVals_nil_of_all_none (r : List Cell) (h : ∀ c ∈ r, c = none) : ob
     subst hc
     simpa [obsVals] using ih (fun c' hc' => h c' (List.mem_cons_of_mem _ hc'))
 
+/-! ### writes, fill_missing, extrapolate over arbitrary lists of distinct periods -/
+
+
+/-- writing one variant over any list of distinct periods: the `i`-th period reads the `i`-th value -/
+theorem writeCol_nodup (v : Nat) : ∀ (serials : List Int) (vals : List Cell) (m : Map),
+    serials.Nodup → vals.length = serials.length →
+    ∀ (i : Nat) (t : Int), serials[i]? = some t → Map.writeCol m v (serials.zip vals) t v = (vals[i]?).getD none := by
+  intro serials
+  induction serials with
+  | nil => intro vals m _ _ i t h; simp at h
+  | cons t0 ts ih =>
+    intro vals m hnd hl i t h
+    cases vals with
+    | nil => simp at hl
+    | cons c cs =>
+      simp only [List.zip_cons_cons, Map.writeCol]
+      have hnd' := List.nodup_cons.mp hnd
+      cases i with
+      | zero =>
+        simp only [List.getElem?_cons_zero, Option.some.injEq] at h
+        subst h
+        rw [writeCol_other v (ts.zip cs) t0 v (m.write t0 v c) (Or.inr (by
+          intro p hp hpt
+          have := (List.of_mem_zip hp).1
+          rw [hpt] at this
+          exact hnd'.1 this))]
+        simp [Map.write]
+      | succ i =>
+        simp only [List.getElem?_cons_succ] at h ⊢
+        exact ih cs _ hnd'.2 (by simpa using hl) i t h
+
+/-- the assignment loop over any list of distinct periods and the variants `k … nv-1` from per-variant columns -/
+theorem writeAll_nodup (nv : Nat) (serials : List Int) (hnd : serials.Nodup) (data : DataArg) (colf : Nat → List Cell)
+    (hcol : ∀ k, k < nv → (data.variant k).values serials.length = some (colf k) ∧ (colf k).length = serials.length) :
+    ∀ (j k : Nat) (m : Map), k + j = nv →
+      ∃ m', Map.writeAll m nv serials data ((List.range' k j).map (fun (i : Nat) => (i : Int))) k = some m' ∧
+        (∀ (i : Nat) (t : Int) (v : Nat), serials[i]? = some t → k ≤ v → v < nv → m' t v = ((colf v)[i]?).getD none) ∧
+        (∀ t v, (t ∉ serials ∨ ¬ (k ≤ v ∧ v < nv)) → m' t v = m t v) := by
+  intro j
+  induction j with
+  | zero =>
+    intro k m hk
+    refine ⟨m, by simp [Map.writeAll], ?_, fun _ _ _ => rfl⟩
+    intro i t v _ h1 h2; omega
+  | succ j ih =>
+    intro k m hk
+    have hk' : k < nv := by omega
+    obtain ⟨hv, hl⟩ := hcol k hk'
+    simp only [List.range'_succ, List.map_cons, Map.writeAll, normIdx_nat nv k hk', hv]
+    obtain ⟨m', h1, h2, h3⟩ := ih (k + 1) (m.writeCol k (serials.zip (colf k))) (by omega)
+    refine ⟨m', h1, ?_, ?_⟩
+    · intro i t v hi q1 q2
+      by_cases c : k + 1 ≤ v
+      · exact h2 i t v hi c q2
+      · have e : v = k := by omega
+        subst e
+        rw [h3 t v (Or.inr (by omega))]
+        exact writeCol_nodup v serials (colf v) m hnd hl i t hi
+    · intro t v hc
+      rw [h3 t v (by
+        rcases hc with hc | hc
+        · exact Or.inl hc
+        · exact Or.inr (by omega))]
+      apply writeCol_other
+      rcases hc with hc | hc
+      · right
+        intro p hp hpt
+        have := (List.of_mem_zip hp).1
+        rw [hpt] at this
+        exact hc this
+      · left; omega
+
+
+/-- **fill_missing over any list of distinct periods** (stepped, backward, unordered): the column the fill functions see is
+the read in the order of the list, a period outside the list is untouched, the `i`-th period keeps an observed cell and
+otherwise receives `fillAt` at position `i` of that column -/
+theorem abs_fillMissing_list (s r : Series) (m : FillMethod) (serials : List Int) (hnd : serials.Nodup) (hne : serials ≠ [])
+    (hI : Inv s) (st : Int) (hs : s.start = some st)
+    (h : s.fillMissingP m (serials.map (fun x => (⟨s.freq, x⟩ : Period))) = .ok r) :
+    (∀ t v, t ∉ serials → r.abs t v = s.abs t v) ∧
+    (∀ (i : Nat) (t : Int) (v : Nat), serials[i]? = some t → v < s.nv →
+      r.abs t v = match s.abs t v with
+        | some x => some x
+        | none => fillAt m (serials.map (fun u => s.abs u v)) i) := by
+  unfold Series.fillMissingP at h
+  simp only [bind_ok] at h
+  obtain ⟨data, hd, h2⟩ := h
+  have hpsne : (serials.map (fun x => (⟨s.freq, x⟩ : Period))) ≠ [] := by simpa using hne
+  have hff : s.freqFor (serials.map (fun x => (⟨s.freq, x⟩ : Period))) = s.freq := by
+    simp [Series.freqFor, hs]
+  have hdata : data = serials.map (fun t => (List.range s.nv).map (fun v => s.abs t v)) := by
+    unfold Series.getDataP at hd
+    rw [hff] at hd
+    dsimp only at hd
+    rw [serialsOf_same] at hd
+    simp only [bind, Except.bind] at hd
+    have := getData_eq_abs s hI.2 serials (List.range s.nv) (fun v hv => List.mem_range.mp hv)
+    simp only [resolveVariants] at hd
+    rw [this] at hd
+    exact (Except.ok.inj hd).symm
+  unfold Series.setDataP at h2
+  rw [if_neg (by
+    intro hh
+    exact hpsne (List.isEmpty_iff.mp hh.1))] at h2
+  rw [hff] at h2
+  dsimp only at h2
+  rw [serialsOf_same] at h2
+  have hwf : ({ freq := s.freq, start := s.start, nv := s.nv, rows := s.rows } : Series) = s := by cases s; rfl
+  rw [hwf] at h2
+  simp only [bind, Except.bind] at h2
+  obtain ⟨_, _, _, h4⟩ := setData_spec _ _ _ _ r hI h2
+  rcases h4 with ⟨h0, _⟩ | ⟨_, _, mm, h6, h7⟩
+  · exact absurd h0 hne
+  · let colf : Nat → List Cell := fun k => fillColumn m (serials.map (fun u => s.abs u k))
+    have hcols : ∀ k, k < s.nv → (transpose s.nv data)[k]? = some (serials.map (fun u => s.abs u k)) := by
+      intro k hk
+      simp only [transpose, List.getElem?_map, List.getElem?_range hk, Option.map_some, hdata, List.map_map]
+      congr 1
+      apply List.map_congr_left
+      intro u _
+      simp [Function.comp, List.getElem?_map, List.getElem?_range hk]
+    have hcol : ∀ k, k < s.nv →
+        ((DataArg.variants ((transpose s.nv data).map (fun c => Col.column (fillColumn m c)))).variant k).values serials.length =
+          some (colf k) ∧ (colf k).length = serials.length := by
+      intro k hk
+      have hl : (colf k).length = serials.length := by simp [colf, fillColumn_length]
+      have e : ((transpose s.nv data).map (fun c => Col.column (fillColumn m c)))[k]? = some (Col.column (colf k)) := by
+        rw [List.getElem?_map, hcols k hk]; rfl
+      refine ⟨?_, hl⟩
+      simp only [DataArg.variant]
+      rw [exhaustThenLast_get _ _ _ k e]
+      simp [Col.values, hl]
+    obtain ⟨m', h8, h9, h10⟩ := writeAll_nodup s.nv serials hnd _ colf hcol s.nv 0 s.abs (by omega)
+    have hv0 : resolveVariants s.nv .all = (List.range' 0 s.nv).map (fun (i : Nat) => (i : Int)) := by
+      simp [resolveVariants, List.range_eq_range']
+    rw [hv0, h8] at h6
+    simp only [Option.some.injEq] at h6
+    subst h6
+    refine ⟨?_, ?_⟩
+    · intro t v hout
+      rw [h7, h10 t v (Or.inl hout)]
+    · intro i t v hi hv
+      rw [h7, h9 i t v hi (by omega) hv]
+      have hilt : i < serials.length := by
+        rcases List.getElem?_eq_some_iff.mp hi with ⟨hh, _⟩; exact hh
+      have hcolAt : colAt (serials.map (fun u => s.abs u v)) i = s.abs t v := by
+        simp [colAt, List.getElem?_map, hi]
+      show colAt (fillColumn m (serials.map (fun u => s.abs u v))) i = _
+      cases hx : s.abs t v with
+      | some x => exact fillColumn_obs m _ _ x (by rw [hcolAt, hx])
+      | none => exact fillColumn_missing m _ _ (by simpa using hilt) (by rw [hcolAt, hx])
+
+/-- **extrapolate over any list of distinct periods**: the recursion is run from the first listed period (`lagsBefore` it) for
+`len(list)` steps and the `k`-th value is stored at the `k`-th listed period; nothing else changes -/
+theorem abs_extrapolate_list (s r : Series) (coeffs : List Rat) (c : Rat) (a : Int) (rest : List Int)
+    (hnd : (a :: rest).Nodup) (hI : Inv s) (st : Int) (hs : s.start = some st)
+    (h : s.extrapolate coeffs c (a :: rest) = .ok r) :
+    (∀ t v, t ∉ a :: rest → r.abs t v = s.abs t v) ∧
+    (∀ (k : Nat) (t : Int) (v : Nat), (a :: rest)[k]? = some t → v < s.nv →
+      r.abs t v = ((arRun coeffs c (rest.length + 1) (lagsBefore s a coeffs.length v))[k]?).getD none) := by
+  unfold Series.extrapolate at h
+  simp only [hs] at h
+  split at h
+  · cases h
+  · obtain ⟨_, _, _, h4⟩ := setData_spec _ _ _ _ r hI h
+    rcases h4 with ⟨h0, _⟩ | ⟨_, _, m, h6, h7⟩
+    · cases h0
+    · let p := coeffs.length
+      let colf : Nat → List Cell := fun v => arRun coeffs c (rest.length + 1) (lagsBefore s a p v)
+      have hcol : ∀ k, k < s.nv →
+          ((DataArg.array ((transpose s.nv (s.sliceFromUntil (a - (p : Int)) (a - 1))).map
+            (fun col => arRun coeffs c (a :: rest).length col.reverse))).variant k).values (a :: rest).length = some (colf k) ∧
+          (colf k).length = (a :: rest).length := by
+        intro k hk
+        refine ⟨?_, by simp [colf, length_arRun]⟩
+        have e : (((transpose s.nv (s.sliceFromUntil (a - (p : Int)) (a - 1))).map
+            (fun col => arRun coeffs c (a :: rest).length col.reverse)).map Col.column)[k]? =
+            some (Col.column (colf k)) := by
+          simp only [transpose, List.getElem?_map, List.getElem?_range hk, Option.map_some, List.length_cons]
+          rw [initCol_eq s hI.2 st hs a p k]
+          rfl
+        simp only [DataArg.variant]
+        rw [exhaustThenLast_get _ _ _ k e]
+        simp [Col.values, colf, length_arRun]
+      obtain ⟨m', h8, h9, h10⟩ := writeAll_nodup s.nv (a :: rest) hnd _ colf hcol s.nv 0 s.abs (by omega)
+      have hv0 : allVids s = (List.range' 0 s.nv).map (fun (i : Nat) => (i : Int)) := by
+        simp [allVids, resolveVariants, List.range_eq_range']
+      rw [hv0, h8] at h6
+      simp only [Option.some.injEq] at h6
+      subst h6
+      refine ⟨?_, ?_⟩
+      · intro t v hout
+        rw [h7, h10 t v (Or.inl hout)]
+      · intro k t v hk hv
+        rw [h7, h9 k t v hk (by omega) hv]
+
+
 end IrisVerif.Series
